@@ -428,7 +428,7 @@ func writeComputedFieldExpression(w *formatting.IndentedWriter, expression dsl.E
 					helperFunctionLookup[arrType] = funcName
 					fmt.Fprintf(w, "function dim = %s(dim_name)\n", funcName)
 					common.WriteBlockBody(w, func() {
-						dims := dsl.ToGeneralizedType(arrType).Dimensionality.(*dsl.Array).Dimensions
+						dims := dsl.ToGeneralizedType(dsl.GetUnderlyingType(arrType)).Dimensionality.(*dsl.Array).Dimensions
 						for i, d := range *dims {
 							if d.Name == nil {
 								continue
